@@ -532,6 +532,34 @@ class ArrStr(AnySymbolicStr, CrossHairValue):
         return z3.And(self.chars[k] >= lo, self.chars[k] <= hi)
 
 
+class IntStr(ArrStr):
+    """str(n) of a symbolic int: a tagged string.  int() of it is n again (contract stub int(str(n)) == n); any
+    other inspection materialises it by pinning n (non-forking, recorded as a concretisation)."""
+
+    def __init__(self, nvar):
+        self.__dict__["_n"] = nvar
+        self.__dict__["_mat"] = None
+
+    def _materialise(self):
+        m = self.__dict__["_mat"]
+        if m is None:
+            with NoTracing():
+                v = _z.pin(SymbolicInt(self.__dict__["_n"]), "str(int) inspected")
+                m = ArrStr.from_concrete(str(v))
+                self.__dict__["_mat"] = m
+        return m
+
+    ln = property(lambda self: self._materialise().ln)
+    chars = property(lambda self: self._materialise().chars)
+    cap = property(lambda self: self._materialise().cap)
+
+    def eval(self, mdl):
+        return str(mdl.eval(self.__dict__["_n"], model_completion=True).as_long())
+
+    def int_value(self):
+        return SymbolicInt(self.__dict__["_n"])
+
+
 def _cut_concrete(s, sep):
     if isinstance(sep, ArrStr):
         return ArrStr.from_concrete(s).cut(sep)
@@ -608,6 +636,8 @@ def pin_len(x):
 
 
 def pin(x, where=""):
+    if isinstance(x, IntStr):
+        return x._materialise().concrete()
     with NoTracing():
         if isinstance(x, ArrStr):
             c = x.concrete()
